@@ -12,6 +12,8 @@ DISPATCH = {
     "C01": ("harness.ledger", "run"),
     "C03": ("harness.rounds", "run"),
     "C13": ("harness.options", "run"),
+    "C14": ("harness.process", "run"),
+    "C15": ("harness.process", "run"),
     "C16": ("harness.rounds", "run"),
     "C04": ("harness.report", "run"),
     "C05": ("harness.herdsupply", "run"),
